@@ -93,6 +93,7 @@ type Peer struct {
 	hbuf  bytes.Buffer
 	henc  *hpack.Encoder
 	noDyn bool
+	desync bool // the server's HPACK state may have diverged from henc
 
 	S        map[uint32]*PStream
 	GoAways  []GoAwayRx
